@@ -180,7 +180,7 @@ impl Ctx {
             if c != id {
                 return false;
             }
-        } else if self.light && id & DIRECTED != 0 && self.start.elapsed().as_secs_f64() > self.budget_s * 0.5 {
+        } else if (self.light || self.miri) && id & DIRECTED != 0 && self.start.elapsed().as_secs_f64() > self.budget_s * 0.5 {
             // sanitizer layers do not claim exhaustiveness: stay inside the time budget
             self.count("light_mode_directed_cases_skipped");
             return false;
